@@ -1,14 +1,561 @@
 import Uflow.Model.HalfConn
+import Uflow.Lemmas.SyncEmit
+import Uflow.Lemmas.SyncData
+import Uflow.Lemmas.SyncAck
+import Uflow.Lemmas.SyncFlush
+import Uflow.Lemmas.SyncOps
+import Uflow.Lemmas.PRecvRun
+import Uflow.Lemmas.CreditEx
+import Uflow.Lemmas.SyncEx
 
-/-! # C11 (liveness; see DESIGN.md 6/C11 for what is and is not a theorem) -/
+/-!
+# C11 (liveness; see DESIGN.md 6/C11 for what is and is not a theorem)
+
+Liveness as a whole is not a theorem. What is proved here are the per-step facts that make up the
+mechanism by which `src/half_connection/mod.rs` recovers from any loss pattern:
+
+1. `C11_sync_emitted` — `emit_sync_frame` sends exactly one sync frame after `max(rto, 2 s)` without a
+   data or sync frame, carrying the next frame id when frames are unacknowledged and the next packet
+   id when the packet window is non-empty and nothing awaits (re)sending (or nothing: keepalive);
+2. `C11_sync_handled`, `C11_sync_answered` — `handle_sync_frame` resynchronises both receive windows
+   and sets `sync_reply` in every case; the next `emit_ack_frames` with non-negative credit sends an
+   ack frame carrying both window bases and clears the flag (with negative credit the reply is
+   postponed, not dropped);
+3. `C11_ack_advances` — `handle_ack_frame` moves both send windows to the acknowledged bases;
+4. `C11_sync_rearmed` — every data frame and every sync frame re-arms the sync timer; only `flush`
+   touches timer and owed reply (`C11_only_flush_touches_sync`); the frame becomes due by time alone
+   (`C11_sync_becomes_due`) and a flush never withholds it except for lack of credit
+   (`C11_sync_emitted_flush`);
+5. `C11_full_window_cycle` — the three steps composed for two half connections.
+
+Vocabulary (`Uflow/Lemmas/SyncEmit.lean`, `SyncAck.lean`, namespace `Uflow.SyncCycle`), for a half
+connection state `s`:
+* `elapsed s = s.nowMs - s.syncTimeoutBase`, `timeout s = max s.rtoMs MIN_SYNC_TIMEOUT_MS`;
+* `FramesUnacked s` : `s.fq.logNext ≠ s.fq.winBase` (`frame_queue.next_id() != frame_queue.base_id()`);
+* `PacketsIdle s` : `s.ps.nextId ≠ s.ps.baseId ∧ s.resend.size = 0 ∧ s.pending.length = 0`;
+* `KeepaliveDue s` : `∃ k, s.keepalive = some k ∧ k ≤ elapsed s`;
+* `SyncDue s` : `timeout s ≤ elapsed s ∧ (FramesUnacked s ∨ PacketsIdle s ∨ KeepaliveDue s)`;
+* `syncNextFrame s`, `syncNextPacket s` : the two optional fields; `syncBytes s` : the encoded frame;
+* `IsAck fb pb E f` : `f = encode (.ack fb pb gs)` for some `gs` of at most 161 groups, all from `E`;
+* `FrameAdv q nb` : `wsub32 nb q.winBase ≠ 0 ∧ wsub32 nb q.winBase ≤ wsub32 q.logNext q.winBase`
+  (`can_advance_transfer_window`); `PacketAdv ps rb` : `rb < 2^20 ∧ pidSub rb ps.baseId ≤ pidSub
+  ps.nextId ps.baseId`.
+-/
 
 namespace Uflow.Props.C11
 
-open Uflow Uflow.HalfConn
+open Uflow Uflow.Gen Uflow.Codec Uflow.HalfConn Uflow.SyncCycle Uflow.CreditEx Uflow.SyncEx
+open Uflow.Credit (Ev exec)
+open Uflow.Rate (FloatOps)
+
+variable {F : Type}
 
 /-- The sync timeout is never shorter than `MIN_SYNC_TIMEOUT_MS` and never shorter than the RTO. -/
 theorem C11_sync_timeout_ge (rto : Nat) :
     Uflow.Gen.MIN_SYNC_TIMEOUT_MS ≤ max rto Uflow.Gen.MIN_SYNC_TIMEOUT_MS ∧ rto ≤ max rto Uflow.Gen.MIN_SYNC_TIMEOUT_MS := by
   constructor <;> omega
+
+/-! ## 1. The sync frame is emitted -/
+
+/-- `emit_sync_frame`, exactly. With the clock not behind the timer base
+(`sync_timeout_base_ms ≤ time_now_ms`; otherwise the subtraction overflows, `C11_sync_clock_trap`):
+* if the sync frame is due (`SyncDue`) and the credit is non-negative, exactly one frame
+  `syncBytes s` is handed to the sink, its 14 bytes are debited, the timer is re-armed
+  (`syncTimeoutBase := nowMs`), nothing else changes, and `emit_frames` goes on;
+* if it is due and the credit is negative, nothing is sent, nothing changes, and `emit_frames` stops
+  (the frame stays due: `SyncDue` does not depend on the credit);
+* if it is not due, nothing is sent and nothing changes.
+Note that the keepalive is only sent once *both* `timeout` and the keepalive interval have elapsed. -/
+theorem C11_sync_emitted (s : State F) (hclk : s.syncTimeoutBase ≤ s.nowMs) :
+    (SyncDue s → 0 ≤ s.flushAlloc →
+      emitSyncFrame s = .ok ({ s with flushAlloc := s.flushAlloc - 14, syncTimeoutBase := s.nowMs },
+        [syncBytes s], .cont)) ∧
+    (SyncDue s → s.flushAlloc < 0 → emitSyncFrame s = .ok (s, [], .stop)) ∧
+    (¬ SyncDue s → emitSyncFrame s = .ok (s, [], .cont)) := by
+  have h := emitSyncFrame_eq s hclk
+  refine ⟨fun hd hc => ?_, fun hd hc => ?_, fun hd => ?_⟩
+  · rw [h, if_pos hd, if_neg (by omega), syncBytes_length]; rfl
+  · rw [h, if_pos hd, if_pos hc]
+  · rw [h, if_neg hd]
+
+
+/-! Non-vacuity (`Uflow/Lemmas/SyncEx.lean`, instance `exOps : FloatOps Nat`, frame windows of 2 frames,
+keepalive 5 s). `exA`: two Unreliable packets sent in two flushes at 0 s and 1 s (frames 0, 1 in flight:
+the frame window is full), then a `step` at 4 s. -/
+
+/-- Due, with credit: both ids are carried; the model sends `syncBytes exA`, re-arms and debits 14. -/
+example : exA.syncTimeoutBase ≤ exA.nowMs ∧ SyncDue exA ∧ 0 ≤ exA.flushAlloc ∧
+    FramesUnacked exA ∧ PacketsIdle exA ∧ FrameQ.canPush exA.fq = false ∧
+    (exA.nowMs, exA.syncTimeoutBase, timeout exA) = (4000, 1000, 2000) ∧
+    outOk (emitSyncFrame exA) = [syncBytes exA] ∧
+    exA1.syncTimeoutBase = 4000 ∧ exA1.flushAlloc = exA.flushAlloc - 14 := by decide +kernel
+
+/-- Due, without credit (hypotheses of the second clause). -/
+example : SyncDue { exA with flushAlloc := -1 } ∧ ({ exA with flushAlloc := -1 } : State Nat).flushAlloc < 0 ∧
+    outOk (emitSyncFrame { exA with flushAlloc := -1 }) = [] := by decide +kernel
+
+/-- Not due: one second after the last data frame (frames are in flight, but `elapsed = 1000 < 2000`);
+and an idle connection before the keepalive interval. -/
+example : ¬ SyncDue exAearly ∧ FramesUnacked exAearly ∧ exAearly.syncTimeoutBase ≤ exAearly.nowMs ∧
+    outOk (emitSyncFrame exAearly) = [] := by decide +kernel
+
+/-- Keepalive: nothing in flight, 6 s ≥ 5 s: the frame carries no id. -/
+example : SyncDue exIdle ∧ ¬ FramesUnacked exIdle ∧ ¬ PacketsIdle exIdle ∧ KeepaliveDue exIdle ∧
+    0 ≤ exIdle.flushAlloc ∧ exIdle.syncTimeoutBase ≤ exIdle.nowMs ∧
+    decode (syncBytes exIdle) = some (.sync none none) ∧
+    outOk (emitSyncFrame exIdle) = [syncBytes exIdle] := by decide +kernel
+
+/-- The content of the sync frame: it decodes (`Frame::read`) to a sync frame whose
+`next_frame_id` is present iff frames are unacknowledged, and is then the sender's next frame id, and
+whose `next_packet_id` is present iff the packet window is non-empty while the resend and pending
+queues are empty, and is then the sender's next packet id. (The two ids are `u32` fields in Rust;
+the model needs the range assumption because its ids are `Nat`.) -/
+theorem C11_sync_frame_content (s : State F) (hf : s.fq.logNext < 2^32) (hp : s.ps.nextId < 2^32) :
+    decode (syncBytes s) = some (.sync (syncNextFrame s) (syncNextPacket s)) ∧
+    (∀ x, syncNextFrame s = some x ↔ FramesUnacked s ∧ x = s.fq.logNext) ∧
+    (syncNextFrame s = none ↔ ¬ FramesUnacked s) ∧
+    (∀ x, syncNextPacket s = some x ↔ PacketsIdle s ∧ x = s.ps.nextId) ∧
+    (syncNextPacket s = none ↔ ¬ PacketsIdle s) :=
+  ⟨decode_syncBytes s hf hp, syncNextFrame_some_iff s, syncNextFrame_none_iff s,
+   syncNextPacket_some_iff s, syncNextPacket_none_iff s⟩
+
+
+example : exA.fq.logNext < 2^32 ∧ exA.ps.nextId < 2^32 ∧
+    decode (syncBytes exA) = some (.sync (some 2) (some 2)) ∧
+    syncNextFrame exA = some exA.fq.logNext ∧ syncNextPacket exA = some exA.ps.nextId := by
+  decide +kernel
+
+/-- If the clock is behind the timer base, `time_now_ms - sync_timeout_base_ms` overflows (a panic
+with overflow checks). The base is only ever set to `time_now_ms`, so this needs a clock that runs
+backwards. -/
+theorem C11_sync_clock_trap (s : State F) (h : s.nowMs < s.syncTimeoutBase) :
+    emitSyncFrame s = .error .overflow :=
+  emitSyncFrame_overflow s h
+
+
+example : ({ exA with syncTimeoutBase := 5000 } : State Nat).nowMs <
+    ({ exA with syncTimeoutBase := 5000 } : State Nat).syncTimeoutBase := by decide +kernel
+
+/-! ## 2. The sync frame is answered -/
+
+/-- `handle_sync_frame`, exactly: the frame-ack window is resynchronised to `next_frame_id` (if
+present), the packet receiver to `next_packet_id` (if present), and `sync_reply` is set in every
+case; nothing else changes. The only way it can fail is a trap inside
+`PacketReceiver::resynchronize` (excluded by `C11_sync_handled_total`). -/
+theorem C11_sync_handled (s : State F) (nf np : Option Nat) :
+    handleSyncFrame s nf np =
+      match np with
+      | none => .ok { s with aq := (match nf with | some id => s.aq.resynchronize id | none => s.aq),
+                             syncReply := true }
+      | some pid =>
+        (PRecv.resynchronize s.pr pid).map fun pr =>
+          { s with aq := (match nf with | some id => s.aq.resynchronize id | none => s.aq),
+                   pr := pr, syncReply := true } := by
+  rw [HcFrame.handleSyncFrame_eq]
+  exact syncFrameCore_spec s _ nf np
+
+
+/-- `exB`: the peer's half connection, which has received nothing (`aq.baseId = 0`, `pr.baseId = 0`).
+Handling `Sync { Some(2), Some(2) }` moves both bases to 2 and sets `sync_reply`. -/
+example : isOk (handleSyncFrame exB (some 2) (some 2)) = true ∧
+    (exB.aq.baseId, exB.pr.baseId, exB.syncReply) = (0, 0, false) ∧
+    (exB1.aq.baseId, exB1.pr.baseId, exB1.syncReply) = (2, 2, true) ∧
+    exB1.aq = exB.aq.resynchronize 2 ∧ PRecv.resynchronize exB.pr 2 = .ok exB1.pr := by
+  decide +kernel
+
+/-- Under the packet receiver's invariant `PRecv.Inv` (which holds initially and is preserved by every
+receiver operation, C03/C06), `handle_sync_frame` never traps: every sync frame that arrives makes
+the receiver owe a reply. -/
+theorem C11_sync_handled_total (W M : Nat) (s : State F) (hinv : PRecv.Inv W M s.pr)
+    (nf np : Option Nat) :
+    ∃ s', handleSyncFrame s nf np = .ok s' ∧ s'.syncReply = true ∧ PRecv.Inv W M s'.pr := by
+  rw [C11_sync_handled]
+  cases np with
+  | none => exact ⟨_, rfl, rfl, hinv⟩
+  | some pid =>
+    obtain ⟨pr, hpr, hinv'⟩ := PRecv.resynchronize_inv hinv pid
+    simp only [hpr, Except.map]
+    exact ⟨_, rfl, rfl, hinv'⟩
+
+
+/-- The invariant holds for `exB`'s packet receiver (it is still the initial one). -/
+example : PRecv.Inv 16 (allocCeil 100000) exB.pr := by
+  have h : exB.pr = PRecv.init 16 0 100000 := by decide +kernel
+  rw [h]
+  exact PRecv.inv_init 16 _ 100000 (by decide) (by decide)
+
+/-- `FrameAckQueue::resynchronize`: the window base jumps to the sender's next frame id if that is
+ahead by at least one and at most the window size; otherwise nothing changes. -/
+theorem C11_ackq_resynchronize (q : FrameQ.AckQ) (id : Nat) :
+    (0 < wsub32 id q.baseId ∧ wsub32 id q.baseId ≤ q.size →
+      q.resynchronize id = { q with baseId := id }) ∧
+    (¬ (0 < wsub32 id q.baseId ∧ wsub32 id q.baseId ≤ q.size) → q.resynchronize id = q) := by
+  unfold FrameQ.AckQ.resynchronize FrameQ.AckQ.advance
+  generalize wsub32 id q.baseId = d
+  simp only [gt_iff_lt]
+  exact ⟨fun h => by rw [if_pos h], fun h => by rw [if_neg h]⟩
+
+
+/-- Both cases: 2 is within `exB`'s window of 2 frames, 5 is not. -/
+example : (0 < wsub32 2 exB.aq.baseId ∧ wsub32 2 exB.aq.baseId ≤ exB.aq.size) ∧
+    ¬ (0 < wsub32 5 exB.aq.baseId ∧ wsub32 5 exB.aq.baseId ≤ exB.aq.size) ∧
+    (exB.aq.resynchronize 2).baseId = 2 ∧ (exB.aq.resynchronize 5).baseId = 0 := by decide +kernel
+
+/-- `emit_ack_frames` with a sync reply owed (`sync_reply = true`) and non-negative credit: at least
+one ack frame is sent, every ack frame sent carries the receiver's current frame window base
+`s.aq.baseId` and packet window base `s.pr.baseId` (and at most 161 groups from the ack queue),
+`sync_reply` is cleared, and neither window base changes. -/
+theorem C11_sync_answered (s : State F) (hr : s.syncReply = true) (hc : 0 ≤ s.flushAlloc) :
+    (emitAckFrames s).2.1 ≠ [] ∧
+    (∀ f ∈ (emitAckFrames s).2.1, IsAck s.aq.baseId s.pr.baseId s.aq.entries f) ∧
+    (emitAckFrames s).1.syncReply = false ∧
+    (emitAckFrames s).1.aq.baseId = s.aq.baseId ∧ (emitAckFrames s).1.pr = s.pr :=
+  ⟨(emitAckFrames_reply s hr hc).1, (emitAckFrames_keep s).2, (emitAckFrames_reply s hr hc).2,
+   (emitAckFrames_keep s).1.aqBase, (emitAckFrames_keep s).1.pr⟩
+
+
+/-- `exB1` (= `exB` after the sync frame): one ack frame `Ack { 2, 2, [] }` is sent. -/
+example : exB1.syncReply = true ∧ 0 ≤ exB1.flushAlloc ∧
+    (emitAckFrames exB1).2.1 = [encode (.ack exB1.aq.baseId exB1.pr.baseId [])] ∧
+    (emitAckFrames exB1).2.1.map decode = [some (.ack 2 2 [])] ∧
+    (emitAckFrames exB1).1.syncReply = false := by decide +kernel
+
+/-- Such an ack frame decodes (`Frame::read`) to `Ack { frame_window_base_id, packet_window_base_id,
+frame_acks }` with exactly these bases (range assumptions as in `C11_sync_frame_content`). -/
+theorem C11_ack_frame_content (fb pb : Nat) (E : List AckGroup) (f : List Nat)
+    (h : IsAck fb pb E f) (hfb : fb < 2^32) (hpb : pb < 2^32) (hE : ∀ g ∈ E, AckGroupOk g) :
+    ∃ gs, decode f = some (.ack fb pb gs) ∧ ∀ g ∈ gs, g ∈ E :=
+  h.decode hfb hpb hE
+
+
+example : IsAck 2 2 exB1.aq.entries (encode (.ack 2 2 [])) ∧ (2 : Nat) < 2^32 ∧
+    ∀ g ∈ exB1.aq.entries, AckGroupOk g := by
+  refine ⟨⟨[], rfl, by decide, fun g hg => nomatch hg⟩, by decide, ?_⟩
+  have h : exB1.aq.entries = [] := by decide +kernel
+  rw [h]
+  exact fun g hg => nomatch hg
+
+/-- With negative credit the reply is only postponed: nothing is sent, nothing changes (in
+particular `sync_reply` stays set), `emit_frames` stops. -/
+theorem C11_sync_answer_postponed (s : State F) (hr : s.syncReply = true) (hc : s.flushAlloc < 0) :
+    emitAckFrames s = (s, [], .stop) :=
+  emitAckFrames_postponed s hr hc
+
+
+example : ({ exB1 with flushAlloc := -1 } : State Nat).syncReply = true ∧
+    ({ exB1 with flushAlloc := -1 } : State Nat).flushAlloc < 0 ∧
+    (emitAckFrames { exB1 with flushAlloc := -1 }).2.1 = [] ∧
+    (emitAckFrames { exB1 with flushAlloc := -1 }).1.syncReply = true := by decide +kernel
+
+/-- At the level of `HalfConnection::flush`: a flush that starts with a reply owed and non-negative
+credit hands an ack frame with the two window bases to the sink first, and no reply is owed
+afterwards. -/
+theorem C11_sync_answered_flush (s s' : State F) (out : List (List Nat))
+    (h : flush s = .ok (s', out)) (hr : s.syncReply = true) (hc : 0 ≤ s.flushAlloc) :
+    s'.syncReply = false ∧
+    ∃ f rest, out = f :: rest ∧ IsAck s.aq.baseId s.pr.baseId s.aq.entries f :=
+  flush_reply s s' out h hr hc
+
+
+example : isOk (flush exB1) = true ∧ exB1.syncReply = true ∧ 0 ≤ exB1.flushAlloc ∧
+    (flushOf exB1).2 = [encode (.ack 2 2 [])] ∧ (flushOf exB1).1.syncReply = false := by
+  decide +kernel
+
+/-! ## 3. The ack frame advances the sender's windows -/
+
+/-- `handle_ack_frame` (when it does not trap) and the two send windows, for arbitrary ack groups:
+* the frame window base becomes `fb` iff `fb` is ahead of it by at least one and at most the number
+  of frames in flight (`FrameAdv`), and is unchanged otherwise; next frame id and window size never
+  change;
+* the packet window base becomes `pb` if `pb` is a valid id within `base_id ..= next_id`
+  (`PacketAdv`), and is unchanged otherwise; next packet id and window size never change;
+* queues, credit, clocks, the sync timer and the receive side are untouched (`SideKeep`). -/
+theorem C11_ack_advances (s s' : State F) (fb pb : Nat) (acks : List AckGroup)
+    (h : handleAckFrame s fb pb acks = .ok s') :
+    SideKeep s s' ∧
+    s'.fq.logNext = s.fq.logNext ∧ s'.fq.winSize = s.fq.winSize ∧
+    s'.ps.nextId = s.ps.nextId ∧ s'.ps.windowSize = s.ps.windowSize ∧
+    (FrameAdv s.fq fb → s'.fq.winBase = fb) ∧ (¬ FrameAdv s.fq fb → s'.fq.winBase = s.fq.winBase) ∧
+    (PacketAdv s.ps pb → s'.ps.baseId = pb) ∧ (¬ PacketAdv s.ps pb → s'.ps.baseId = s.ps.baseId) := by
+  obtain ⟨h1, h2, h3, h4, h5, h6, h7, h8⟩ := handleAckFrame_windows s s' fb pb acks h
+  exact ⟨h1, h2.logNext, h2.winSize, h3, h4, h5, h6, h7, h8⟩
+
+
+/-- `exA1` (= `exA` after its sync frame; frames 0, 1 and packets 0, 1 in flight) handles
+`Ack { 2, 2, [] }`: both bases move to 2; `Ack { 1, 1, [] }` moves them to 1; 0 (stale) and 3 (beyond
+the next id) are not admissible. -/
+example : isOk (handleAckFrame exA1 2 2 []) = true ∧ FrameAdv exA1.fq 2 ∧ PacketAdv exA1.ps 2 ∧
+    (exA1.fq.winBase, exA1.fq.logNext, exA1.ps.baseId, exA1.ps.nextId) = (0, 2, 0, 2) ∧
+    (exA2.fq.winBase, exA2.fq.logNext, exA2.ps.baseId, exA2.ps.nextId) = (2, 2, 2, 2) ∧
+    FrameAdv exA1.fq 1 ∧ PacketAdv exA1.ps 1 ∧
+    ¬ FrameAdv exA1.fq 0 ∧ ¬ FrameAdv exA1.fq 3 ∧ ¬ PacketAdv exA1.ps 3 ∧
+    ¬ PacketAdv exA1.ps (2^20 + 1) := by decide +kernel
+
+/-- The frame window reopens: an ack frame whose frame window base is the sender's next frame id
+(the answer to a sync frame, `C11_full_window_cycle`) leaves no frame in flight, so
+`FrameQueue::can_push` holds (for a non-zero window size). -/
+theorem C11_window_reopens_frames (s s' : State F) (pb : Nat) (acks : List AckGroup)
+    (h : handleAckFrame s s.fq.logNext pb acks = .ok s') :
+    wsub32 s'.fq.logNext s'.fq.winBase = 0 ∧ (0 < s.fq.winSize → FrameQ.canPush s'.fq = true) := by
+  obtain ⟨_, hn, hsz, _, _, ha, hna, _, _⟩ := C11_ack_advances s s' _ pb acks h
+  have h0 : wsub32 s'.fq.logNext s'.fq.winBase = 0 := by
+    by_cases hadv : FrameAdv s.fq s.fq.logNext
+    · rw [ha hadv, hn]; unfold wsub32; omega
+    · rw [hna hadv, hn]
+      unfold FrameAdv at hadv
+      generalize wsub32 s.fq.logNext s.fq.winBase = d at hadv ⊢
+      omega
+  refine ⟨h0, fun hw => ?_⟩
+  unfold FrameQ.canPush
+  rw [h0, hsz]
+  exact decide_eq_true hw
+
+
+example : isOk (handleAckFrame exA1 exA1.fq.logNext 2 []) = true ∧ 0 < exA1.fq.winSize ∧
+    FrameQ.canPush exA1.fq = false ∧ FrameQ.canPush exA2.fq = true := by decide +kernel
+
+/-- The packet window reopens: an ack frame whose packet window base is the sender's next packet id
+(a valid id) empties the packet window, so `emit_packet` is no longer window limited and the next
+sync frame carries no packet id. -/
+theorem C11_window_reopens_packets (s s' : State F) (fb : Nat) (acks : List AckGroup)
+    (hv : s.ps.nextId < PACKET_ID_SPAN)
+    (h : handleAckFrame s fb s.ps.nextId acks = .ok s') :
+    s'.ps.baseId = s'.ps.nextId ∧ pidSub s'.ps.nextId s'.ps.baseId = 0 ∧ ¬ PacketsIdle s' := by
+  obtain ⟨_, _, _, hn, _, _, _, ha, _⟩ := C11_ack_advances s s' fb _ acks h
+  have hb : s'.ps.baseId = s'.ps.nextId := by
+    rw [ha ⟨hv, Nat.le_refl _⟩, hn]
+  refine ⟨hb, ?_, fun hi => hi.1 hb.symm⟩
+  rw [hb]
+  simp only [PACKET_ID_SPAN] at hv
+  unfold pidSub
+  simp only [PACKET_ID_SPAN]
+  omega
+
+
+example : exA1.ps.nextId < PACKET_ID_SPAN ∧ isOk (handleAckFrame exA1 2 exA1.ps.nextId []) = true ∧
+    PacketsIdle exA1 ∧ ¬ PacketsIdle exA2 ∧ exA2.ps.baseId = exA2.ps.nextId := by decide +kernel
+
+/-- A stale or out-of-range ack frame (no groups, neither base admissible) changes nothing at all.
+(For the frame part alone see also `C15_window_stale_noop`.) -/
+theorem C11_ack_stale_noop (s : State F) (fb pb : Nat) (hf : ¬ FrameAdv s.fq fb)
+    (hp : ¬ PacketAdv s.ps pb) : handleAckFrame s fb pb [] = .ok s :=
+  handleAckFrame_stale s fb pb hf hp
+
+
+example : ¬ FrameAdv exA1.fq 0 ∧ ¬ PacketAdv exA1.ps 3 ∧ ¬ FrameAdv exA2.fq 2 ∧ ¬ FrameAdv exA2.fq 1 := by
+  decide +kernel
+
+/-! ## 4. The sync timer is re-armed -/
+
+/-- `emit_data_frames`: the clock is untouched; if at least one data frame is sent the sync timer is
+re-armed (`sync_timeout_base_ms = time_now_ms`), otherwise it is unchanged; everything sent is a
+data frame. So a sync frame is only ever sent `max(rto, 2 s)` after the last data or sync frame. -/
+theorem C11_sync_rearmed_data (s s' : State F) (out : List (List Nat)) (st : Stage)
+    (h : emitDataFrames s = .ok (s', out, st)) :
+    s'.nowMs = s.nowMs ∧ (out ≠ [] → s'.syncTimeoutBase = s.nowMs) ∧
+    (out = [] → s'.syncTimeoutBase = s.syncTimeoutBase) ∧
+    (∀ f ∈ out, ∃ id n dgs, f = encode (.data id n dgs)) := by
+  have hi := emitDataFrames_sync s s' out st h
+  exact ⟨hi.now, hi.armed, hi.quiet, hi.data⟩
+
+
+/-- `exAfirst` (a packet queued, credit 0, clock 0 ms, timer base 0) sends one data frame; `exA` (window
+full, nothing queued) sends none and keeps its timer base 1000. -/
+example : isOk (emitDataFrames exAfirst) = true ∧ (outOk (emitDataFrames exAfirst)).length = 1 ∧
+    isOk (emitDataFrames exA) = true ∧ outOk (emitDataFrames exA) = [] ∧
+    (fstOk exA (emitDataFrames exA)).syncTimeoutBase = 1000 := by decide +kernel
+
+/-- `emit_sync_frame` (when it does not trap): either nothing is sent and nothing changes, or the one
+sync frame is sent and the timer is re-armed, so the cycle repeats every `timeout` while nothing is
+acknowledged. -/
+theorem C11_sync_rearmed_sync (s s' : State F) (out : List (List Nat)) (st : Stage)
+    (h : emitSyncFrame s = .ok (s', out, st)) :
+    (out = [] ∧ s' = s) ∨
+    (out = [syncBytes s] ∧ s'.syncTimeoutBase = s.nowMs ∧ s'.nowMs = s.nowMs ∧
+      ¬ (timeout s' ≤ elapsed s' ∧ 0 < timeout s')) := by
+  obtain ⟨_, hcase⟩ := emitSyncFrame_ok s s' out st h
+  rcases hcase with ⟨h1, h2, _, _⟩ | ⟨h1, _, _, _, rfl⟩
+  · exact Or.inl ⟨h1, h2⟩
+  · refine Or.inr ⟨h1, rfl, rfl, ?_⟩
+    simp only [elapsed, timeout, Nat.sub_self]
+    omega
+
+/-- Only `flush` touches the sync machinery. Every other operation of a half connection (`step`,
+`send`, `receive`, the three frame handlers; `Ev`/`exec` of `Uflow/Lemmas/CreditRun.lean`) hands no
+frame to the sink, leaves the sync timer base and the keepalive interval unchanged, and keeps an owed
+sync reply owed. So the timer cannot be pushed forward by incoming traffic, the reply cannot be
+forgotten, and (frames acting only through the three handlers) a sync or ack frame that is lost has no
+effect on the peer at all. -/
+theorem C11_only_flush_touches_sync (ops : FloatOps F) (s s' : State F) (ev : Ev)
+    (out : List (List Nat)) (hev : ev ≠ .flush) (h : exec ops s ev = .ok (s', out)) :
+    out = [] ∧ s'.syncTimeoutBase = s.syncTimeoutBase ∧ s'.keepalive = s.keepalive ∧
+    (s.syncReply = true → s'.syncReply = true) :=
+  exec_timer ops s s' ev out hev h
+
+example : Ev.step 5000000000 ≠ .flush ∧ isOk (exec exOps exB1 (.step 5000000000)) = true ∧
+    exB1.syncReply = true ∧ Ev.ackFrame 2 2 [] ≠ .flush ∧
+    isOk (exec exOps exA1 (.ackFrame 2 2 [])) = true := by decide +kernel
+
+/-- `HalfConnection::flush` as a whole: the frames handed to the sink are the ack frames followed by
+data and sync frames (`rest`); if `rest` is non-empty the sync timer is re-armed to the current time,
+otherwise it is unchanged (ack frames never re-arm it). -/
+theorem C11_sync_rearmed (s s' : State F) (out : List (List Nat)) (h : flush s = .ok (s', out)) :
+    ∃ rest, out = (emitAckFrames s).2.1 ++ rest ∧ s'.nowMs = s.nowMs ∧
+      (rest ≠ [] → s'.syncTimeoutBase = s.nowMs) ∧
+      (rest = [] → s'.syncTimeoutBase = s.syncTimeoutBase) ∧
+      (∀ f ∈ rest, (∃ id n dgs, f = encode (.data id n dgs)) ∨ ∃ nf np, f = encode (.sync nf np)) :=
+  flush_rearm s s' out h
+
+
+/-- A flush that sends a data frame (`exAfirst`: a packet queued, at 0 s) and a flush that sends the
+sync frame (`exA`, at 4 s) both re-arm the timer; a flush that sends only an ack frame (`exB1`) does
+not. -/
+example : isOk (flush exAfirst) = true ∧ (flushOf exAfirst).2.length = 1 ∧
+    (emitAckFrames exAfirst).2.1 = [] ∧ (flushOf exAfirst).2.map (fun f => (decode f).isSome) = [true] ∧
+    isOk (flush exA) = true ∧ (flushOf exA).2 = [syncBytes exA] ∧
+    (exA.syncTimeoutBase, (flushOf exA).1.syncTimeoutBase, exA.nowMs) = (1000, 4000, 4000) ∧
+    (flushOf exB1).2.length = 1 ∧ (flushOf exB1).1.syncTimeoutBase = exB1.syncTimeoutBase ∧
+    exB1.syncTimeoutBase ≠ exB1.nowMs := by decide +kernel
+
+/-- The sync frame becomes due by the passage of time alone: `HalfConnection::step` keeps the frames
+in flight in flight and the timer base where it is (only `flush` moves it,
+`C11_only_flush_touches_sync`), so once the clock handed to `step` has passed
+`sync_timeout_base_ms + max(rto, 2 s)` (`rto` being the rate controller's estimate before the step,
+or `INITIAL_RTO_ESTIMATE_MS`) the state after the step satisfies `SyncDue`; the next flush with credit
+then sends a frame (`C11_sync_emitted_flush`). -/
+theorem C11_sync_becomes_due (ops : FloatOps F) (s s' : State F) (now : Nat)
+    (h : step ops s now = .ok s') (hun : FramesUnacked s)
+    (hlate : s.syncTimeoutBase + max (s.rate.rtoMs.getD INITIAL_RTO_ESTIMATE_MS) MIN_SYNC_TIMEOUT_MS
+      ≤ (now - s.timeBase) / 1000000) :
+    SyncDue s' ∧ FramesUnacked s' ∧ s'.syncTimeoutBase = s.syncTimeoutBase ∧
+    s'.syncTimeoutBase ≤ s'.nowMs := by
+  have hnow := (HcFrame.step_frame ops s s' now h).2.2.2.2.2.2
+  have hstb := (step_timer ops s s' now h).stb
+  obtain ⟨⟨hl, hb⟩, hrto⟩ := step_ids ops s s' now h
+  have hun' : FramesUnacked s' := by
+    show s'.fq.logNext ≠ s'.fq.winBase
+    rw [hl, hb]; exact hun
+  refine ⟨⟨?_, Or.inl hun'⟩, hun', hstb, by omega⟩
+  simp only [timeout, elapsed, hnow, hstb, hrto]
+  omega
+
+/-- `exApre` (frames 0, 1 in flight, last data frame at 1000 ms) and a `step` at 4 s. -/
+example : isOk (step exOps exApre 4000000000) = true ∧ FramesUnacked exApre ∧
+    exApre.syncTimeoutBase + max (exApre.rate.rtoMs.getD INITIAL_RTO_ESTIMATE_MS) MIN_SYNC_TIMEOUT_MS
+      ≤ (4000000000 - exApre.timeBase) / 1000000 ∧
+    ¬ SyncDue exApre := by decide +kernel
+
+/-- No silent skip, at the level of `HalfConnection::flush`: in a state with unacknowledged frames
+whose sync timeout has elapsed, a (non-trapping) flush either ends out of credit
+(`flush_alloc < 0`, refilled by later `step`s, C13) or hands at least one data or sync frame to the sink
+after its ack frames and re-arms the timer. In particular there is no state with frames in flight in
+which the sync frame is withheld for any reason other than the rate limit. -/
+theorem C11_sync_emitted_flush (s s' : State F) (out : List (List Nat))
+    (h : flush s = .ok (s', out)) (hto : timeout s ≤ elapsed s) (hun : FramesUnacked s) :
+    s'.flushAlloc < 0 ∨
+    ∃ rest, out = (emitAckFrames s).2.1 ++ rest ∧ rest ≠ [] ∧ s'.syncTimeoutBase = s.nowMs :=
+  flush_sync_progress s s' out h hto hun
+
+/-- Both outcomes: `exA` (credit 3000) sends the sync frame; with credit −1 nothing is sent. -/
+example : isOk (flush exA) = true ∧ timeout exA ≤ elapsed exA ∧ FramesUnacked exA ∧
+    (flushOf exA).2 = [syncBytes exA] ∧ (flushOf exA).1.syncTimeoutBase = exA.nowMs ∧
+    0 ≤ (flushOf exA).1.flushAlloc ∧
+    isOk (flush { exA with flushAlloc := -1 }) = true ∧
+    (flushOf { exA with flushAlloc := -1 }).2 = [] ∧
+    (flushOf { exA with flushAlloc := -1 }).1.flushAlloc < 0 := by decide +kernel
+
+/-! ## 5. The cycle, composed -/
+
+/-- A full frame window has frames in flight. -/
+theorem C11_full_window_unacked (q : FrameQ.State) (h : FrameQ.canPush q = false) (hw : 0 < q.winSize) :
+    wsub32 q.logNext q.winBase ≠ 0 ∧ q.logNext ≠ q.winBase := by
+  unfold FrameQ.canPush at h
+  have h0 : wsub32 q.logNext q.winBase ≠ 0 := by
+    generalize wsub32 q.logNext q.winBase = d at h
+    simp only [decide_eq_false_iff_not, Nat.not_lt] at h
+    omega
+  refine ⟨h0, fun he => h0 ?_⟩
+  rw [he]; unfold wsub32; omega
+
+/-- The cycle for two half connections: `A` the sender side of one endpoint, `B` the receiver side of
+the other. Assumptions: `A` has frames in flight (`wsub32 logNext winBase ≠ 0`, in particular when
+its frame window is full, `C11_full_window_unacked`), its sync timeout has elapsed, its credit is
+non-negative; `B`'s frame-ack window base is at most one window behind `A`'s next frame id (true
+whether `B` received all, some or none of `A`'s frames, as long as both use the same window size).
+All acks so far may have been lost. Then:
+1. `A` emits exactly one sync frame, which decodes to `Sync { next_frame_id: Some(A.next), .. }`;
+2. when `B` handles it (no trap, cf. `C11_sync_handled_total`) it owes a reply and its frame window
+   base is `A`'s next frame id; with non-negative credit its next `emit_ack_frames` sends at least one
+   ack frame, and every ack frame it sends is `Ack { frame_window_base_id: A.next, .. }`;
+3. when `A` handles any ack frame with that frame window base (whatever its packet base and groups;
+   no trap), `A`'s frame window is open again: `can_push` holds. -/
+theorem C11_full_window_cycle (A B : State F)
+    (hAn : A.fq.logNext < 2^32) (hAp : A.ps.nextId < 2^32) (hBb : B.aq.baseId < 2^32)
+    (hclk : A.syncTimeoutBase ≤ A.nowMs) (hto : timeout A ≤ elapsed A)
+    (hun : wsub32 A.fq.logNext A.fq.winBase ≠ 0) (hw : 0 < A.fq.winSize)
+    (hcred : 0 ≤ A.flushAlloc)
+    (hrel : wsub32 A.fq.logNext B.aq.baseId ≤ B.aq.size) :
+    ∃ A1 np,
+      emitSyncFrame A = .ok (A1, [syncBytes A], .cont) ∧
+      decode (syncBytes A) = some (.sync (some A.fq.logNext) np) ∧
+      A1.syncTimeoutBase = A.nowMs ∧
+      ∀ B1, handleSyncFrame B (some A.fq.logNext) np = .ok B1 →
+        B1.syncReply = true ∧ B1.aq.baseId = A.fq.logNext ∧
+        (0 ≤ B.flushAlloc →
+          (emitAckFrames B1).2.1 ≠ [] ∧
+          ∀ f ∈ (emitAckFrames B1).2.1, IsAck A.fq.logNext B1.pr.baseId B1.aq.entries f) ∧
+        ∀ pb acks A2, handleAckFrame A1 A.fq.logNext pb acks = .ok A2 →
+          FrameQ.canPush A2.fq = true := by
+  have hne : A.fq.logNext ≠ A.fq.winBase := by
+    intro he; apply hun; rw [he]; unfold wsub32; omega
+  have hdue : SyncDue A := ⟨hto, Or.inl hne⟩
+  have hnf : syncNextFrame A = some A.fq.logNext := (syncNextFrame_some_iff A _).mpr ⟨hne, rfl⟩
+  refine ⟨_, syncNextPacket A, (C11_sync_emitted A hclk).1 hdue hcred, ?_, rfl, ?_⟩
+  · rw [decode_syncBytes A hAn hAp, hnf]
+  · intro B1 hB
+    rw [C11_sync_handled] at hB
+    -- the frame-ack window base after resynchronisation
+    have hbase : (B.aq.resynchronize A.fq.logNext).baseId = A.fq.logNext := by
+      by_cases hd : 0 < wsub32 A.fq.logNext B.aq.baseId
+      · rw [(C11_ackq_resynchronize B.aq A.fq.logNext).1 ⟨hd, hrel⟩]
+      · rw [(C11_ackq_resynchronize B.aq A.fq.logNext).2 (fun hh => hd hh.1)]
+        unfold wsub32 at hd
+        omega
+    have hB1 : B1.syncReply = true ∧ B1.aq = B.aq.resynchronize A.fq.logNext ∧
+        B1.flushAlloc = B.flushAlloc := by
+      cases hnp : syncNextPacket A with
+      | none =>
+        rw [hnp] at hB
+        simp only [Except.ok.injEq] at hB
+        subst hB
+        exact ⟨rfl, rfl, rfl⟩
+      | some pid =>
+        rw [hnp] at hB
+        simp only at hB
+        cases hr : PRecv.resynchronize B.pr pid with
+        | error t => rw [hr] at hB; cases hB
+        | ok pr =>
+          rw [hr] at hB
+          simp only [Except.map, Except.ok.injEq] at hB
+          subst hB
+          exact ⟨rfl, rfl, rfl⟩
+    obtain ⟨hrep, haq, hfa⟩ := hB1
+    have hb1 : B1.aq.baseId = A.fq.logNext := by rw [haq]; exact hbase
+    refine ⟨hrep, hb1, fun hc => ?_, fun pb acks A2 hA2 => ?_⟩
+    · obtain ⟨h1, h2, _⟩ := C11_sync_answered B1 hrep (by rw [hfa]; exact hc)
+      rw [hb1] at h2
+      exact ⟨h1, h2⟩
+    · exact (C11_window_reopens_frames
+        ({ A with flushAlloc := A.flushAlloc - 14, syncTimeoutBase := A.nowMs }) A2 pb acks hA2).2 hw
+
+/-- Non-vacuity: `A = exA` (frame window of 2 full, every frame lost), `B = exB` (received nothing).
+All hypotheses hold, no step traps, and the window is open at the end (`exA2`). -/
+example : exA.fq.logNext < 2^32 ∧ exA.ps.nextId < 2^32 ∧ exB.aq.baseId < 2^32 ∧
+    exA.syncTimeoutBase ≤ exA.nowMs ∧ timeout exA ≤ elapsed exA ∧
+    FrameQ.canPush exA.fq = false ∧ wsub32 exA.fq.logNext exA.fq.winBase ≠ 0 ∧ 0 < exA.fq.winSize ∧
+    0 ≤ exA.flushAlloc ∧ wsub32 exA.fq.logNext exB.aq.baseId ≤ exB.aq.size ∧ 0 ≤ exB.flushAlloc ∧
+    isOk (handleSyncFrame exB (some exA.fq.logNext) (syncNextPacket exA)) = true ∧
+    isOk (handleAckFrame exA1 exA.fq.logNext 2 []) = true ∧
+    FrameQ.canPush exA2.fq = true := by decide +kernel
 
 end Uflow.Props.C11
